@@ -128,20 +128,19 @@ private theorem coReach_inj
   rw [accepts_append, accepts_append, hvq, hvt] at h2
   rw [← h1, ← h2]
 
-/-- **Minimality, complete kind.**  If the declared states of `M` are duplicate-free, all
-reachable and pairwise distinguishable, then every valid complete DFA `B` with the same
-language whose alphabet contains the symbols `M` moves on has at least as many states.
-(`hsym` follows from `M.WF` and `M.syms ⊆ B.syms`, see the corollary below.) -/
-theorem minimal_of_reachable_distinguishable_complete'
+/-- **Minimality, complete kind**, against an arbitrary list `L` that contains the declared
+states of `B` (e.g. `dedup B.states`).  (`hsym` follows from `M.WF` and `M.syms ⊆ B.syms`.) -/
+theorem minimal_of_reachable_distinguishable_complete''
     (hnd : M.states.Nodup)
     (hreach : ∀ q ∈ M.states, ∃ w, M.run (some M.init) w = some q)
     (hdist : ∀ p ∈ M.states, ∀ q ∈ M.states, p ≠ q →
       ∃ w, M.isFinal (M.run (some p) w) ≠ M.isFinal (M.run (some q) w))
     (hsym : ∀ (s : Option σ) (a : α), a ∉ B.syms → M.step? s a = none)
     (wfB : B.WF) (hBc : B.allowPartial = false)
-    (hlang : ∀ w, B.accepts w = M.accepts w) :
-    M.states.length ≤ B.states.length := by
-  refine length_le_of_rel_inj (CoReach M B) M.states B.states hnd ?_
+    (hlang : ∀ w, B.accepts w = M.accepts w)
+    (L : List τ) (hL : ∀ t ∈ B.states, t ∈ L) :
+    M.states.length ≤ L.length := by
+  refine length_le_of_rel_inj (CoReach M B) M.states L hnd ?_
     (coReach_inj M B hdist hlang)
   intro q hq
   obtain ⟨w, hw⟩ := hreach q hq
@@ -161,7 +160,23 @@ theorem minimal_of_reachable_distinguishable_complete'
         cases hw
       · exact ih _ hw a haw
   obtain ⟨t, ht, hrun⟩ := run_complete wfB hBc wfB.initOk w hwB
-  exact ⟨t, ht, w, hw, hrun⟩
+  exact ⟨t, hL t ht, w, hw, hrun⟩
+
+/-- **Minimality, complete kind.**  If the declared states of `M` are duplicate-free, all
+reachable and pairwise distinguishable, then every valid complete DFA `B` with the same
+language whose alphabet contains the symbols `M` moves on has at least as many states.
+(`hsym` follows from `M.WF` and `M.syms ⊆ B.syms`, see the corollary below.) -/
+theorem minimal_of_reachable_distinguishable_complete'
+    (hnd : M.states.Nodup)
+    (hreach : ∀ q ∈ M.states, ∃ w, M.run (some M.init) w = some q)
+    (hdist : ∀ p ∈ M.states, ∀ q ∈ M.states, p ≠ q →
+      ∃ w, M.isFinal (M.run (some p) w) ≠ M.isFinal (M.run (some q) w))
+    (hsym : ∀ (s : Option σ) (a : α), a ∉ B.syms → M.step? s a = none)
+    (wfB : B.WF) (hBc : B.allowPartial = false)
+    (hlang : ∀ w, B.accepts w = M.accepts w) :
+    M.states.length ≤ B.states.length :=
+  minimal_of_reachable_distinguishable_complete'' M B hnd hreach hdist hsym wfB hBc hlang
+    B.states fun _ h => h
 
 /-- **Minimality, complete kind** (the form used by the property theorems): `M` valid with
 duplicate-free, reachable, pairwise distinguishable states; `B` valid, complete, over an
